@@ -25,6 +25,11 @@ def run(ctx):
 
 
 def run_cfg(ctx, p, cfg):
+    if "config_parsing" in p.meta.get("features", []):
+        from rules import serde_defaults
+        # "only if the file is at least min_size bytes": the min_size of a trigger read from a document is the document's, and 1 when it says nothing
+        common.rule_config_reaches_component(ctx, p, cfg, "O5", "OnStartUpTriggerDeserializer", "OnStartUpTrigger::new", stored={"min_size": 1})
+        serde_defaults.rule_missing_keys(ctx, p, cfg, "O6", "trigger::onstartup::OnStartUpTriggerConfig")
     with ctx.rule("O1", "at most once", cfg) as r:
         f = p.fn(TRIG)
         adt = p.adt(ADT)
